@@ -27,8 +27,8 @@ response — according to `continues`. -/
 theorem doLoop_step (fx : Fixes) (s : Stack) (fuel a : Nat) (prev : Option Resp) :
     (continues s a (attempt fx s a prev) = true ∧ ∃ r, (attempt fx s a prev).resp = some r ∧
       doLoop fx s (fuel + 1) a prev =
-        { doLoop fx s fuel (a + 1) (some (cleanup r)) with
-          atts := attempt fx s a prev :: (doLoop fx s fuel (a + 1) (some (cleanup r))).atts }) ∨
+        { doLoop fx s fuel (a + 1) (some (cleanup (applyHook r (s.retryHookAt a)))) with
+          atts := attempt fx s a prev :: (doLoop fx s fuel (a + 1) (some (cleanup (applyHook r (s.retryHookAt a))))).atts }) ∨
     (continues s a (attempt fx s a prev) = false ∧ (doLoop fx s (fuel + 1) a prev).atts = [attempt fx s a prev] ∧
       (doLoop fx s (fuel + 1) a prev).exhausted = false) := by
   simp only [doLoop, continues]
